@@ -88,6 +88,15 @@ pub fn pattern(r: &mut Rng) -> String {
                 s.push_str(&segs(r, 0, 2));
             }
         }
+        11 => {
+            // end-anchored pattern whose last word follows each kind of separator (`/ads/*banner|`,
+            // `ads^js|`, `/x.b|`): the word is a token of the rule only under some of them
+            s.push_str(&segs(r, 1, 2));
+            s.push_str(r.pick(&["*", "/*", "^", "/", ".", "-", "*/", "^*"]));
+            s.push_str(r.pick(VOCAB));
+            s.push('|');
+            return s;
+        }
         _ => {
             if r.chance(1, 4) {
                 s.push_str(r.pick(SEPS));
@@ -289,6 +298,8 @@ pub fn url_for(r: &mut Rng, rule_line: &str) -> String {
     let pre = if pat.starts_with("||") { String::new() } else { match r.below(6) { 0 | 1 => format!("/{}", r.pick(VOCAB)), 2 => format!("/{}", r.pick(&["lo", "x9", "b"])), _ => String::new() } };
     let pre = if pre.len() == 3 || pre.len() == 2 { pre } else if pre.is_empty() { pre } else { format!("{}/", pre) };
     let post = match r.below(6) { 0 | 1 => format!("/{}", r.pick(VOCAB)), 2 => (*r.pick(&["s", "2x", "er"])).to_string(), _ => String::new() };
+    // an end-anchored pattern only matches when nothing follows: mostly leave the end alone
+    let post = if pat.ends_with('|') && r.chance(4, 5) { String::new() } else { post };
     let rest = if !pre.is_empty() && !pre.ends_with('/') { rest.trim_start_matches('/').to_string() } else { rest };
     format!("{}://{}{}{}{}", scheme, host, pre, rest, post)
 }
